@@ -50,8 +50,33 @@ where
 
     let mut impl_items = item_impls.map(|item_impl| &item_impl.items);
     if let Some(first_items) = impl_items.next() {
-        for second_items in impl_items {
+        for second_items in impl_items.clone() {
             compare_inherent_items(first_items, second_items);
+        }
+        // NOTE: The generated impl has one visibility per item (the one of the first impl)
+        for second_items in impl_items {
+            compare_inherent_visibility(first_items, second_items);
+        }
+    }
+}
+
+fn compare_inherent_visibility(first: &[syn::ImplItem], second: &[syn::ImplItem]) {
+    fn vis(item: &syn::ImplItem) -> Option<(u8, &syn::Ident, &syn::Visibility)> {
+        match item {
+            syn::ImplItem::Const(item) => Some((0, &item.ident, &item.vis)),
+            syn::ImplItem::Type(item) => Some((1, &item.ident, &item.vis)),
+            syn::ImplItem::Fn(item) => Some((2, &item.sig.ident, &item.vis)),
+            _ => None,
+        }
+    }
+
+    for (kind, ident, first_vis) in first.iter().filter_map(vis) {
+        for second_item in second {
+            if let Some((second_kind, second_ident, second_vis)) = vis(second_item) {
+                if kind == second_kind && ident == second_ident && first_vis != second_vis {
+                    abort!(second_item, "Visibility doesn't match between impls");
+                }
+            }
         }
     }
 }
